@@ -529,6 +529,53 @@ func runC42(c *eng.Ctx) {
 				return len(rs.Results) == 1 && eng.ExprString(rs.Results[0]) == "it.valType"
 			}))
 		}
+		// (added for seed C42-c) the requested range is closed: [mint, maxt].  Whatever a method of the iterator compares
+		// with the range's ends — a sample's timestamp or a chunk's time range — "beyond the end" is > maxt and
+		// "before the start" is < mint; a comparison that puts the end itself outside (>= maxt, < maxt, <= mint, > mint)
+		// loses the samples at exactly mint or maxt.
+		{
+			named := p.Named(R + "chunkedSeriesIterator")
+			cmps := 0
+			for i := 0; i < named.NumMethods(); i++ {
+				m := c.Fn(R + "chunkedSeriesIterator." + named.Method(i).Name())
+				ast.Inspect(m.Body, func(x ast.Node) bool {
+					be, ok := x.(*ast.BinaryExpr)
+					if !ok {
+						return true
+					}
+					op := be.Op.String()
+					if op != "<" && op != "<=" && op != ">" && op != ">=" && op != "==" && op != "!=" {
+						return true
+					}
+					l, r := nodeText(be.X), nodeText(be.Y)
+					end := func(t string) string {
+						switch {
+						case t == "it.maxt" || t == "maxt":
+							return "maxt"
+						case t == "it.mint" || t == "mint":
+							return "mint"
+						}
+						return ""
+					}
+					le, re := end(l), end(r)
+					if le == "" && re == "" || le != "" && re != "" {
+						return true
+					}
+					// normalise to "x OP end"
+					e := re
+					if le != "" {
+						e = le
+						op = map[string]string{"<": ">", "<=": ">=", ">": "<", ">=": "<=", "==": "==", "!=": "!="}[op]
+					}
+					cmps++
+					ok = e == "maxt" && (op == ">" || op == "<=") || e == "mint" && (op == "<" || op == ">=")
+					c.Check("R6", m.Where(), "comparisons with the ends of the requested range treat it as closed (x > maxt, x <= maxt, x < mint, x >= mint)", ok, p.Pos(be.Pos()),
+						nodeText(be)+" — the value equal to "+e+" falls on the wrong side: samples at exactly "+e+" are lost or samples outside the range returned")
+					return true
+				})
+			}
+			c.Check("R6", R+"chunkedSeriesIterator", "comparisons with the range's ends found in the iterator's methods", cmps >= 4, "", fmt.Sprint(cmps))
+		}
 		sk := c.Fn(R + "chunkedSeriesIterator.Seek")
 		scan := 0
 		for _, l := range sk.Find(retVal) {
